@@ -70,7 +70,7 @@ def generate_pycode():
     d = tempfile.mkdtemp(prefix="andes_verif_pycode_")
     try:
         ctx = mp.get_context("fork")
-        with ctx.Pool(min(16, os.cpu_count() or 4)) as pool:
+        with ctx.Pool(int(os.environ.get("VERIF_JOBS", 0)) or min(16, os.cpu_count() or 4)) as pool:
             res = pool.map(_gen_one, [(n, d) for n in models], chunksize=2)
     except Exception:
         shutil.rmtree(d, ignore_errors=True)
@@ -165,7 +165,7 @@ def generated_dir():
     """directory holding generator output for the *current* tree (cached by content digest
     of /repo/andes/**/*.py under /verif/.cache; rebuilt when absent)."""
     from .report import VERIF
-    cache = os.path.join(VERIF, ".cache")
+    cache = os.environ.get("VERIF_CACHE") or os.path.join(VERIF, ".cache")
     os.makedirs(cache, exist_ok=True)
     dg = tree_digest()
     target = os.path.join(cache, "pycode_" + dg)
